@@ -49,6 +49,7 @@ class MemFS:
         self.log = []
         self.logging = True
         self.uuid_n = 0
+        self.uuid_hook = None
         self.read_monitor = None      # callable(path, bytes) for every completed read
         self.list_reverse = False     # directory listing order: sorted or reverse sorted (the kernel promises no order)
         self.cwd = "/"
@@ -452,6 +453,8 @@ class MemFS:
             yield from self.walk(top + "/" + d)
 
     def uuid4(self):
+        if self.uuid_hook is not None:
+            return self.uuid_hook()
         self.uuid_n += 1
         return "u%04d" % self.uuid_n
 
@@ -771,6 +774,25 @@ def uninstall():
         else:
             setattr(m, k, v)
     _SAVED.clear()
+
+
+def mkproject_nofs(path="/p"):
+    """like mkproject but without touching the file system (used by concurrent actors)"""
+    import threading
+    import signac.project as P
+    pr = P.Project.__new__(P.Project)
+    pr._config = {"schema_version": "2"}
+    pr._lock = threading.RLock()
+    pr._document = None
+    pr._stores = None
+    pr._path = path
+    pr._workspace = path + "/workspace"
+    pr._sp_cache = {}
+    pr._sp_cache_read = False
+    pr._sp_cache_misses = 0
+    pr._sp_cache_warned = False
+    pr._sp_cache_miss_warning_threshold = 500
+    return pr
 
 
 def mkproject(fs, path="/p", fresh_session=True):
